@@ -39,11 +39,18 @@ theorem layout_agree_abi_fixed (tg : Target) (h : wfTarget tg = true) (t : GoTyp
   · exact abi_eq_ll 4 (Or.inl rfl) 1 _ (by decide) t hp
   · exact abi_eq_ll 8 (Or.inr rfl) 1 _ (by decide) t hp
 
+/-- the raw conversion (function value → closure struct) keeps a type free of padded zero-size tails -/
+theorem padFree_raw (tg : Target) (h : wfTarget tg = true) (t : GoType) (hp : padFree tg t = true) :
+    padFree tg (toRaw t) = true := by
+  rcases wfTarget_cases tg h with rfl | rfl
+  · exact padFree_toRaw 4 (Or.inl rfl) t hp
+  · exact padFree_toRaw 8 (Or.inr rfl) t hp
+
 /-- **The property, as far as it is true of the current code** (all three computations, every type term). -/
 theorem layout_agree_partial (tg : Target) (h : wfTarget tg = true) (ha : abiOK tg = true) (t : GoType)
-    (hp : padFree tg t = true) (hr : padFree tg (toRaw t) = true) :
+    (hp : padFree tg t = true) :
     goSizes tg t = llvmLayout tg t ∧ abiTable tg t = llvmLayout tg t :=
-  ⟨layout_agree_go tg h t hp, layout_agree_abi tg h ha t hr⟩
+  ⟨layout_agree_go tg h t hp, layout_agree_abi tg h ha t (padFree_raw tg h t hp)⟩
 
 /-- **Referenced element descriptors** (full statement): the `Size_` of the descriptor a map, slice, chan, pointer,
     array or struct descriptor references for an element of type `t` is the size of a `t` in generated code. -/
